@@ -331,6 +331,7 @@ type c11Run struct {
 	taps   bool
 	fresh  bool
 	cur    *c11Node // shape currently installed under the swap store
+	wrapLeaf func(m *c11Member) desync.Store // concurrent runs: recorder around every member
 	frames []*c11Frame
 	fails  []c11PolicyFail
 	opNo   int
@@ -359,6 +360,9 @@ func (r *c11Run) build(n *c11Node) desync.Store {
 	switch n.Kind {
 	case 'L':
 		s = r.w.members[n.K]
+		if r.wrapLeaf != nil {
+			s = r.wrapLeaf(r.w.members[n.K])
+		}
 	case 'O':
 		s = c11RO{r.w.members[n.K]}
 	case 'R':
@@ -1051,7 +1055,7 @@ func runC11(a vh.Args, o *vh.Oracle, r *vh.Result) error {
 		return err
 	}
 	rng := vh.NewRand(a.Seed)
-	n := 1500
+	n := 4000
 	if a.Tier == "thorough" {
 		n = 40000
 	}
